@@ -16,7 +16,7 @@ type pathExec struct {
 	fn      *ssa.Function
 	oracle  func(pe *pathExec, cond ssa.Value) (val bool, known bool)
 	phi     map[*ssa.Phi]ssa.Value
-	mem     map[string]ssa.Value // local memory: alloc/field cell -> last stored value on this path
+	mem     map[string]ssa.Value    // local memory: alloc/field cell -> last stored value on this path
 	vals    map[ssa.Value]ssa.Value // loads evaluated at their execution point
 	ints    map[*ssa.Phi]int64      // integer phis folded to constants on this path
 	lenOf   func(call *ssa.Call) (int64, bool)
